@@ -31,7 +31,6 @@ CT = 'commands::test'
 EC = 'rules::eval_context'
 
 UNITS = {
-    'U-join-probe': dict(functions='probe', cls='probe', quick=reg('rules::functions::strings', ['k_join_011', 'k_join_111']) + reg('rules::eval', ['k_cnf_3_1s']), thorough=[], assumptions=[], timeout=900, mem_gb=10),
     'U-unary-special': dict(functions='eval::unary_operation, result-set branch (`%v empty` / filter emptiness); record_unary_clause stubbed (not on this path)',
                             cls='bounded (one value of kind Int / Null / UnResolved, empty selection); complete in operator-not x prefix-not',
                             quick=reg('rules::eval', ['k_unsp_empty_int', 'k_unsp_empty_unres', 'k_unsp_empty_nosel', 'k_unsp_empty_null']), thorough=[],
@@ -75,8 +74,9 @@ UNITS = {
                    quick=reg(FV, ['k_parse_char_int', 'k_parse_int_int', 'k_parse_int_char']), thorough=[], assumptions=[STUBS[0]], timeout=600),
     'U-substr': dict(functions='functions::strings::substring', cls='bounded (ASCII strings of 0..2 bytes quick, 3 bytes thorough; one 2-byte char + 1 ASCII; all from,to: usize)',
                      quick=reg(FS, ['k_substr_ascii_0', 'k_substr_ascii_1', 'k_substr_ascii_2', 'k_substr_utf8_nopanic', 'k_substr_skips']), thorough=reg(FS, ['k_substr_ascii_3']), assumptions=STUBS, timeout=600, mem_gb=8),
-    'U-join': dict(functions='functions::strings::join', cls='bounded (empty selection; non-string member; unresolved member) -- every concatenation harness exceeded 8 GB and is NOT registered: the element/delimiter order of join is not decided',
-                   quick=reg(FS, ['k_join_edge']), thorough=[], assumptions=STUBS, timeout=600),
+    'U-join': dict(functions='functions::strings::join', cls='bounded (3 elements of 0 or 1 byte in five length patterns incl. leading / middle / trailing / all empty, one-byte delimiter; empty selection; non-string member; unresolved member)',
+                   quick=reg(FS, ['k_join_edge', 'k_join_111', 'k_join_011', 'k_join_101', 'k_join_110', 'k_join_000']), thorough=[],
+                   assumptions=STUBS + ['Kani stub: String::with_capacity -> String::new (capacity is a hint; the 512-byte buffer of join made CBMC exceed 24 GB)'], timeout=600, mem_gb=8),
     'U-cnf': dict(functions='eval::eval_conjunction_clauses (real generic code, T = forced leaf)',
                   cls='bounded (all shapes of 1 line x <= 3 alternatives and 2 lines x <= 2 alternatives quick; 2 x <= 3 and 3 x 1 thorough; every leaf in PASS/FAIL/SKIP/Err)',
                   quick=reg(EV, ['k_cnf_0', 'k_cnf_1_1', 'k_cnf_1_2', 'k_cnf_1_3', 'k_cnf_2_1q', 'k_cnf_2_2q']),
